@@ -414,3 +414,65 @@ def _sorted(it, args, kwargs):
 
 
 _B2.SPEC_FUNCS['SORTED'] = _sorted
+
+# ---------------------------------------------------------------- compliance groups (C06)
+comp_flat = z3.Function('comp_flat', pv.PVSeq, z3.StringSort(), z3.IntSort(), pv.PVSeq)
+
+
+def _comp_items(modname_t, cm):
+    """records of one MODULE part: every group in order, attributed to the MODULE name or this module"""
+    items = PV.titems(cm)
+    name = z3.If(pv.truthy_term(items[0]), items[0], PV.PStr(modname_t))
+    x = z3.Const('map.x0', PV)
+    rec = PV.PDict(pv.seq_of([lift('object'), lift('module')]),
+                   z3.Store(z3.Store(pv.EMPTY_ARR, z3.StringVal('object'),
+                                     PV.PStr(B.py_replace(PV.s(x), z3.StringVal('-'), z3.StringVal('_')))),
+                            z3.StringVal('module'), name))
+    groups = z3.If(PV.is_PList(items[1]), PV.litems(items[1]), PV.titems(items[1]))
+    return z3.SeqMap(z3.Lambda([x], rec), groups)
+
+
+def sp_FLAT(it, args, kwargs):
+    """FLAT(modules, thisModule, i): concatenation over the first i MODULE parts of their group records; the
+    defining equations are added at every mention (FLAT(ms, 0) = [], FLAT(ms, i) = FLAT(ms, i-1) ++ items(ms[i-1]))"""
+    ms, mod, i = args
+    seq = it.seq_term(ms)
+    m = pv.as_term_str(mod)
+    it_ = pv.as_term_int(i)
+    ctx = it.ctx
+    ctx.assume(comp_flat(seq, m, z3.IntVal(0)) == pv.EMPTY_SEQ)
+    j = pv.ssimp(it_ - 1)
+    ctx.assume(z3.Implies(z3.And(j >= 0, j < z3.Length(seq)),
+                          comp_flat(seq, m, it_) == z3.Concat(comp_flat(seq, m, j), _comp_items(m, seq[j]))))
+    return VSeqIter(comp_flat(seq, m, it_))
+
+
+B.SPEC_FUNCS['FLAT'] = sp_FLAT
+
+CONTRACTS += [
+    sub('genCompliances', Lst(SeqOf()),
+        {'groups_of_all_module_parts_in_order': 'same(seq(result), FLAT(data[0], self.moduleName[0], len(data[0])))'},
+        ['C06'],
+        requires=['forall(data[0], lambda cm: is_tuple(cm) and len(cm) == 2 and is_list(cm[1]))'],
+        loops={1: {'invariant': ['same(seq(compliances), FLAT(data[0], self.moduleName[0], _i))']}},
+        returns=SeqOf()),
+]
+
+# ---------------------------------------------------------------- INDEX clause (C06)
+IDX_ELEM = ('lambda j, r: is_dict(r) and implies(data[0][j][1] not in self.smiv1IdxTypes, '
+            'same(r["implied"], data[0][j][0]) and same(r["object"], data[0][j][1]))')
+IDX_MOD = ('lambda j, r: implies(data[0][j][1] not in self.smiv1IdxTypes, same(r["module"], '
+           'self._importMap.get(py_replace(data[0][j][1], "-", "_"), self.moduleName[0])))')
+
+CONTRACTS += [
+    sub('genTableIndex', Lst(SeqOf()),
+        {'same_length_and_order': 'len(result[0]) == len(data[0])',
+         # for every index that names an object (SMIv1 type names in INDEX are a relaxation, see finding D19)
+         'implied_flag_and_object_kept': 'forall(seq(result[0]), IDX_ELEM)',
+         'defining_module_attributed': 'forall(seq(result[0]), IDX_MOD)'},
+        ['C06'], defs={'IDX_ELEM': IDX_ELEM, 'IDX_MOD': IDX_MOD},
+        requires=['forall(data[0], lambda x: is_tuple(x) and len(x) == 2 and is_str(x[1]))'],
+        loops={1: {'invariant': ['len(idxStrlist) == _i', 'forall(seq(idxStrlist), IDX_ELEM)',
+                                 'forall(seq(idxStrlist), IDX_MOD)', 'is_list(fakeStrlist) and is_list(fakeSyms)']}},
+        assigns=['self.fakeidx'], returns=Tup(SeqOf(), SeqOf(), SeqOf())),
+]
